@@ -253,20 +253,33 @@ def gen_cases(prop, u, seed, tier, probe=None):
         plan = []
         for i, t in enumerate(u.types):
             if is_fragile(t): continue
-            for v in values_for(t, rng, 2 if quick else 4)[:2 if quick else 4]:
+            for v in values_for(t, rng, 6 if quick else 10):
                 plan.append((i, v))
         answers = probe(['schema %d %s' % (i, v) for i, v in plan])
-        streams = []
+        per_type = {}
         for (i, v), a in zip(plan, answers):
             ps = parse_schema(a)
             if ps is not None and 40 < len(ps[0]) // 2 < 3000:
-                streams.append((i, v, ps[0]))
+                per_type.setdefault(i, []).append((i, v, ps[0]))
+        # per type the values with the longest streams (they own the most heap memory when rebuilt)
+        streams = []
+        for i in sorted(per_type):
+            best = sorted(per_type[i], key=lambda x: -len(x[2]))
+            streams += best[:2 if quick else 4]
+        def owns_heap_in_sequence(t):
+            # arrays / vectors / structures whose items own heap memory: a failure in a later item must release the earlier ones
+            return any(isinstance(x, (Array, Seq)) and any(isinstance(y, (Str, Seq)) for y in x.t.walk()) for x in t.walk()) or \
+                   (isinstance(t, Adt) and sum(1 for c in t.children() if any(isinstance(y, (Str, Seq)) for y in c.walk())) >= 2)
         reps = 12 if quick else 40
         for idx, (i, v, hx) in enumerate(streams):
             n = len(hx) // 2
-            if quick and idx % 2: continue
+            if quick and idx % 2 and not owns_heap_in_sequence(u.types[i]): continue
             variants = [('valid', hx)]
-            for k in sorted(set([1, 8, 12, 28, 36, n // 2, n - 9, n - 1])):
+            # cut points: inside the header, and spread over the body so that a cut falls after some heap-owning parts
+            # of the value have been built and inside a later one (partially built values must be released too)
+            body0 = min(n, 37)
+            spread = [body0 + (n - body0) * q // 12 for q in range(1, 12)]
+            for k in sorted(set([1, 8, 12, 28, 36, n // 2, n - 9, n - 1] + spread)):
                 if 0 < k < n: variants.append(('trunc%d' % k, hx[:2 * k]))
             variants.append(('magic', '00' + hx[2:]))
             variants.append(('typehash', hx[:26] + ('%02x' % (int(hx[26:28], 16) ^ 1)) + hx[28:]))
@@ -356,7 +369,6 @@ def gen_cases(prop, u, seed, tier, probe=None):
                     for f in fl:
                         cs.add('load %d %s %d %s' % (i, l, f, v), kind='load', ti=i, val=v, loader=l, flags=f, family='load-' + l)
         # file lengths of every residue modulo 64: a string of every length 0..63 inside a deep structure
-        from universe import Str, Seq
         si = [i for i, t in enumerate(u.types) if isinstance(t, Seq) and isinstance(t.t, Str)]
         if si:
             i = si[0]
@@ -391,7 +403,6 @@ def gen_cases(prop, u, seed, tier, probe=None):
             cs.add('wfail %d k=-,m=5,int=3,ff=0 %s' % (i, v), kind='wfail', ti=i, val=v, k=None, total=n, ff=False, family='split-retry')
             cs.add('wfail %d k=-,ff=1 %s' % (i, v), kind='wfail', ti=i, val=v, k=None, total=n, ff=True, family='flush-fail')
             cs.add('wfail %d devfull %s' % (i, v), kind='wfail', ti=i, val=v, k=0, total=n, ff=False, devfull=True, family='dev-full')
-        from universe import Seq
         for k_, t in enumerate(u.slice_elems):
             vt = Seq('vec', t)
             for v in ['[]'] + values_for(vt, rng, 3 if quick else 8):
@@ -419,7 +430,6 @@ def gen_cases(prop, u, seed, tier, probe=None):
     elif prop == 'C16':
         for k, t in enumerate(u.slice_elems):
             cs.add('stype %d %s' % (k, t.term()), kind='stype', ti=None)
-        from universe import Seq
         for k, t in enumerate(u.slice_elems):
             vt = Seq('vec', t)
             vals = ['[]'] + values_for(vt, rng, 6 if quick else 20)
